@@ -324,6 +324,10 @@ class Check:
         bad = scan_forbidden()
         if bad:
             self.broken.append({"kind": "forbidden-construct", "what": bad})
+        # the generated constants are read from /repo on every run (all sections: a check may be the first thing run on a fresh clone)
+        g = subprocess.run([PY_IMPL, os.path.join(VERIF, "harness/impl/gen_consts.py")], env=impl_env(), stdout=subprocess.PIPE, stderr=subprocess.PIPE)
+        if g.returncode != 0:
+            self.broken.append({"kind": "generator", "what": "gen_consts failed", "err": g.stderr.decode()[-1500:]})
         target = "Props/%s.vo" % self.pid
         # force re-check of the property file so Print Assumptions is printed
         for ext in (".vo", ".glob", ".vok", ".vos"):
